@@ -9,10 +9,15 @@ def rows(r, maxn=20, keys=8):
     return " ".join("%d:%d" % (min(r.below(keys), r.below(keys)) if r.chance(1, 2) else r.below(keys), r.rng(0, 30)) for _ in range(n))
 
 
-def gen_program(r, maxnodes=8, results=(), allow=None, big=False):
-    """returns program text; `results` = shard counts of available results (R0, R1)"""
+def gen_program(r, maxnodes=8, results=(), allow=None, big=False, e2e=False, result_ordered=()):
+    """returns program text; `results` = shard counts of available results (R0, R1).
+    With e2e=True the program is meant to be run: Head is applied only where the row order is fixed,
+    WriterFunc/count/Scan only wrap the output (so they are computed by exactly one task per shard)."""
     nodes = []      # (name, nshard)
     stmts = []
+    ordered = {}
+    for i, o in enumerate(result_ordered):
+        ordered["R%d" % i] = o
     pfx2 = set()    # nodes whose key prefix is 2 (below a reshuffle2): Reduce/Cogroup do not type-check on them
 
     def src():
@@ -29,6 +34,12 @@ def gen_program(r, maxnodes=8, results=(), allow=None, big=False):
         name = "N%d" % len(nodes)
         stmts.append("%s=%s" % (name, text))
         nodes.append((name, nshard))
+        if opname in ("const", "reader", "lines", "reduce", "cogroup"):
+            ordered[name] = True
+        elif opname in ("fold", "reshuffle", "reshuffle2", "repartition", "reshard"):
+            ordered[name] = False
+        else:
+            ordered[name] = all(ordered.get(s, True) for s in srcs)
         if opname == "reshuffle2" or (any(s in pfx2 for s in srcs) and opname not in ("reduce", "cogroup")):
             pfx2.add(name)
 
@@ -61,7 +72,10 @@ def gen_program(r, maxnodes=8, results=(), allow=None, big=False):
         elif k < 50:
             add("fold", "fold %s" % s, sh, (s,))
         elif k < 55:
-            add("head", "head %s %d" % (s, r.choice([0, 1, 2, 5])), sh, (s,))
+            if e2e and not ordered.get(s, True):
+                add("filter", "filter %s all" % s, sh, (s,))
+            else:
+                add("head", "head %s %d" % (s, r.choice([0, 1, 2, 5])), sh, (s,))
         elif k < 68:
             if s in pfx2:
                 add("map", "map %s id" % s, sh, (s,))
@@ -83,10 +97,18 @@ def gen_program(r, maxnodes=8, results=(), allow=None, big=False):
         elif k < 93:
             m = r.rng(1, 5)
             add("reshard", "reshard %s %d" % (s, m), m, (s,))
+            if m == sh:
+                ordered[nodes[-1][0]] = ordered.get(s, True)   # Reshard returns its argument
         elif k < 97:
-            add("writer", "writer %s" % s, sh, (s,))
+            if e2e:
+                add("map", "map %s id" % s, sh, (s,))
+            else:
+                add("writer", "writer %s" % s, sh, (s,))
         else:
-            add("count", "count %s %d" % (s, r.below(3)), sh, (s,))
+            if e2e:
+                add("filter", "filter %s vodd" % s, sh, (s,))
+            else:
+                add("count", "count %s %d" % (s, r.below(3)), sh, (s,))
     out = nodes[-1][0] if r.chance(4, 5) else r.choice(nodes)[0]
     if out in pfx2:
         # keep result types simple: a result always has key prefix 1
@@ -96,4 +118,16 @@ def gen_program(r, maxnodes=8, results=(), allow=None, big=False):
             stmts.append("N%d=const 1 1:1" % len(nodes))
             nodes.append(("N%d" % (len(nodes)), 1))
             out = nodes[-1][0]
+    if e2e and r.chance(1, 4):
+        kind = r.choice(["count", "count", "writer", "scan"])
+        name = "N%d" % len(nodes)
+        if kind == "count":
+            stmts.append("%s=count %s %d" % (name, out, r.below(3)))
+        else:
+            stmts.append("%s=%s %s" % (name, kind, out))
+        nodes.append((name, dict(nodes)[out]))
+        ordered[name] = ordered.get(out, True)
+        out = name
+    if e2e:
+        return " ; ".join(stmts) + " ; OUT " + out, dict(nodes)[out], ordered.get(out, True), stmts[-1].split("=")[1].startswith("scan")
     return " ; ".join(stmts) + " ; OUT " + out, dict(nodes)[out]
